@@ -163,7 +163,8 @@ func (w *hw) observe(ex *expect) {
 	if w.observed {
 		pre := w.prevT
 		cands, exact := w.candidateTables(pre, t, ex)
-		newThings := 0
+		var newItems []qItem
+		var newBatches []batchInfo
 		// (1) new or re-assigned messages
 		for _, ch := range allChains {
 			prevByID := map[uint64]qItem{}
@@ -178,7 +179,7 @@ func (w *hw) observe(ex *expect) {
 				if !it.IsEvm {
 					continue
 				}
-				newThings++
+				newItems = append(newItems, it)
 				what := "new message"
 				if had {
 					what = "re-assigned message"
@@ -194,12 +195,12 @@ func (w *hw) observe(ex *expect) {
 			if _, had := w.prevBatches[k]; had {
 				continue
 			}
-			newThings++
+			newBatches = append(newBatches, b)
 			w.checkAssignment(fmt.Sprintf("new skyway batch %d", b.Nonce), "skyway-batch", b.Chain, b.Assignee, b.Remote, false, cands, exact, map[string]any{"batch": b, "op": ex})
 		}
 		// requests with a known outcome
 		if ex != nil && (ex.Kind == "job" || ex.Kind == "batch") {
-			w.checkRequest(ex, pre, t, q, batches, exact, newThings)
+			w.checkRequest(ex, pre, t, q, exact, newItems, newBatches)
 		}
 		// (3) fees of messages whose estimate was elected since the previous boundary
 		w.checkFees(t, q)
@@ -213,7 +214,7 @@ func (w *hw) observe(ex *expect) {
 	w.prevT, w.prevQ, w.prevBatches, w.observed = t, q, batches, true
 }
 
-func (w *hw) checkRequest(ex *expect, pre, post tables, q map[string][]qItem, batches map[string]batchInfo, exact bool, newThings int) {
+func (w *hw) checkRequest(ex *expect, pre, post tables, q map[string][]qItem, exact bool, newItems []qItem, newBatches []batchInfo) {
 	if !exact {
 		w.rec.Count("requests_not_checked_tables_moved", 1)
 		return
@@ -259,10 +260,22 @@ func (w *hw) checkRequest(ex *expect, pre, post tables, q map[string][]qItem, ba
 		}
 		return
 	}
-	// request failed
-	if newThings > 0 {
-		w.rec.Violation("enqueue/"+ex.Kind+"/failed-request-left-message", fmt.Sprintf("%s request on %s failed (%s) but %d new message(s)/batch(es) exist", ex.Kind, ex.Chain, firstLine(ex.ErrText), newThings),
-			w.witness(map[string]any{"op": ex}))
+	// request failed: nothing of it may be left behind (end-blockers of the same block may have
+	// added validator-set updates or compass uploads of their own; those are checked as assignments)
+	var left []any
+	for _, it := range newItems {
+		if ex.Kind == "job" && it.Kind == "slc" && it.Chain == ex.Chain {
+			left = append(left, it)
+		}
+	}
+	for _, b := range newBatches {
+		if ex.Kind == "batch" && b.Chain == ex.Chain {
+			left = append(left, b)
+		}
+	}
+	if len(left) > 0 {
+		w.rec.Violation("enqueue/"+ex.Kind+"/failed-request-left-message", fmt.Sprintf("%s request on %s failed (%s) but left %d item(s) in the queue", ex.Kind, ex.Chain, firstLine(ex.ErrText), len(left)),
+			w.witness(map[string]any{"op": ex, "left": left}))
 	}
 	if len(elig) == 0 {
 		w.rec.Count("noeligible_fail_checked", 1)
